@@ -652,6 +652,16 @@ class Analyzer(ExprMixin):
             try:
                 if f is None:
                     raise Unsupported("positional port association")
+                # type conversions in association elements: `formal => T(actual)` (mode in/inout) and
+                # `T(formal) => actual` (mode out/inout), T one of the closely related vector types
+                conv_f = None
+                if isinstance(f, P.Apply) and isinstance(f.prefix, P.Name) and len(f.args) == 1 \
+                        and isinstance(f.args[0], P.Name) and f.args[0].ident in formals:
+                    te = self.lookup(f.prefix.ident, line)
+                    if te.kind != "utype":
+                        raise TypeErr(f"line {line}: '{f.prefix.ident}' in the formal part is not a vector type mark", "portmap")
+                    conv_f = te.extra
+                    f = f.args[0]
                 if not isinstance(f, P.Name):
                     raise Unsupported("partial formal association")
                 fp = formals.get(f.ident)
@@ -666,11 +676,40 @@ class Analyzer(ExprMixin):
                     inner = inner.expr
                 if not isinstance(inner, (P.Name, P.Apply)):
                     raise Unsupported("expression as port actual")
+                conv_a = None
+                if isinstance(inner, P.Apply) and isinstance(inner.prefix, P.Name):
+                    te = self.lookup(inner.prefix.ident, line)
+                    if te.kind == "utype":
+                        if len(inner.args) != 1 or isinstance(inner.args[0], P.RangeArg):
+                            raise TypeErr(f"line {line}: type conversion takes exactly one operand", "portmap")
+                        conv_a = te.extra
+                        inner = inner.args[0]
+                        while isinstance(inner, P.Paren):
+                            inner = inner.expr
+                        if not isinstance(inner, (P.Name, P.Apply)):
+                            raise Unsupported("expression as port actual")
                 ref = self.resolve_ref(inner)
                 e = ref.entry
                 if e.store != "S":
                     raise TypeErr(f"line {line}: actual for port '{f.ident}' is not a signal", "portmap")
-                if ref.ty != fty:
+                if conv_a is not None or conv_f is not None:
+                    if conv_a is not None and fp.mode == "out":
+                        raise TypeErr(f"line {line}: type conversion on the actual of output port '{f.ident}'", "portmap")
+                    if conv_f is not None and fp.mode == "in":
+                        raise TypeErr(f"line {line}: type conversion on the formal of input port '{f.ident}'", "portmap")
+                    if not (is_vec(fty) and is_vec(ref.ty)):
+                        raise TypeErr(f"line {line}: type conversion in the association of port '{f.ident}' between "
+                                      f"{tname(ref.ty)} and {tname(fty)}", "portmap")
+                    seen_by_formal = VEC(conv_a, ref.ty[2]) if conv_a is not None else ref.ty
+                    seen_by_actual = VEC(conv_f, fty[2]) if conv_f is not None else fty
+                    need_a = fp.mode in ("in", "inout")
+                    need_f = fp.mode in ("out", "inout")
+                    if (need_a and seen_by_formal != fty) or (need_f and seen_by_actual != ref.ty):
+                        raise TypeErr(f"line {line}: port '{f.ident}' of {s.entity} has type {tname(fty)}"
+                                      f"{' (converted to ' + tname(seen_by_actual) + ')' if conv_f else ''} but the actual "
+                                      f"has type {tname(ref.ty)}{' (converted to ' + tname(seen_by_formal) + ')' if conv_a else ''}",
+                                      "width" if fty[2] != ref.ty[2] else "portmap")
+                elif ref.ty != fty:
                     raise TypeErr(f"line {line}: port '{f.ident}' of {s.entity} has type {tname(fty)} but the actual "
                                   f"has type {tname(ref.ty)}", "width" if is_vec(fty) and is_vec(ref.ty) and fty[1] == ref.ty[1] else "portmap")
                 steps = self.unify_steps(ref)
